@@ -47,7 +47,7 @@ PREDN = ["even", "odd", "pos", "lt5", "mod3"]
 
 def rand_el(rng, depth=0):
     k = rng.choice(["call", "call", "var", "filter", "slice", "count", "runif", "reverse",
-                    "acc", "acc", "seq", "split", "end"] if depth < 2 else
+                    "acc", "acc", "seq", "split", "end", "seqsub"] if depth < 2 else
                    ["call", "var", "filter", "slice", "count"])
     if k == "call":
         return ["call", rng.choice(CALLS)]
@@ -78,6 +78,12 @@ def rand_el(rng, depth=0):
                            ["dsum"]])
     if k == "seq":
         return ["seq", [rand_el(rng, depth + 1) for _ in range(rng.randint(0, 3))]]
+    if k == "seqsub":
+        if rng.random() < 0.6:
+            return ["call", "dbl"]
+        # a subclass of Sequence that overrides run (reverses / terminates its output)
+        return ["seqsub", rng.choice(["rev", "term"]),
+                [rand_el(rng, 2) for _ in range(rng.randint(0, 2))]]
     if k == "split":
         nb = rng.randint(0, 3)
         return ["split", [[rand_el(rng, 2) for _ in range(rng.randint(1, 2))]
@@ -342,6 +348,10 @@ def run_case(r, obs):
             obs.check(got3 == exp3, "source-interleaved-flows-differ",
                       "two live flows of one Source(list, e1..en) give %r, manual folds give %r "
                       "(els=%r flow=%r)" % (got3, exp3, els_r, flow_r))
+        if "'seqsub'" in repr(els_r):
+            # flatten() documents that it dissolves every LenaSequence; a subclass with its own
+            # run is not something the flattened arrangement can preserve
+            return
         # flatten keeps element identity and order
         els = fresh()
         nested = lena.core.Sequence(*random_nest(random.Random(r["nest_seed"]), els))
